@@ -41,7 +41,13 @@ func (x *Exec) runState(s *State) {
 		if x.cfg.Trace || (traceFn != "" && strings.Contains(f.Info.Fn.Name(), traceFn)) {
 			fmt.Printf("  [%s b%d:%d] tags=%v %s\n", f.Info.Fn.Name(), f.Block, f.PC, s.Tags, ins)
 		}
+		before := x.tb.NTerms
 		cont := x.step(s, f, ins)
+		if profTerms {
+			if d := x.tb.NTerms - before; d > 0 {
+				x.TermProf[f.Info.Fn.String()+" :: "+fmt.Sprintf("%T", ins)] += d
+			}
+		}
 		if !cont {
 			return
 		}
@@ -386,6 +392,17 @@ func (x *Exec) step(s *State, f *Frame, ins ssa.Instruction) bool {
 		return true
 	case *ssa.Call:
 		return x.doCall(s, f, in)
+	case *ssa.UnOp:
+		if in.Op == token.ARROW {
+			return x.doRecv(s, f, in)
+		}
+		v, ok := x.evalValue(s, f, in)
+		if !ok {
+			return false
+		}
+		x.set(f, in, v)
+		f.PC++
+		return true
 	case ssa.Value:
 		v, ok := x.evalValue(s, f, in)
 		if !ok {
@@ -404,7 +421,9 @@ func (x *Exec) doReturn(s *State, res Value) {
 	t := s.thread()
 	f := t.Frames[len(t.Frames)-1]
 	if os.Getenv("GOSMT_DEBUGRET") != "" && strings.Contains(f.Info.Fn.String(), os.Getenv("GOSMT_DEBUGRET")) {
-		fmt.Printf("RET %s tags=%v guardconst=%v res=%s\n", f.Info.Fn.Name(), s.Tags, s.G.IsTrue(), x.showVal(res))
+		showDepth = 10
+		fmt.Printf("RET %s tags=%v guardconst=%v res=%s\n  GUARD=%s\n", f.Info.Fn.Name(), s.Tags, s.G.IsTrue(), x.showVal(res), x.tb.Show(s.G))
+		showDepth = 4
 	}
 	t.Frames = t.Frames[:len(t.Frames)-1]
 	if f.OnReturn != nil {
@@ -928,6 +947,7 @@ func (x *Exec) sliceElems(s *State, sv *SliceVal) ([]Value, bool) {
 }
 
 var traceFn = os.Getenv("GOSMT_TRACEFN")
+var profTerms = os.Getenv("GOSMT_PROFTERMS") != ""
 
 func (x *Exec) showVal(v Value) string {
 	switch c := v.(type) {
@@ -952,6 +972,16 @@ func (x *Exec) showVal(v Value) string {
 			r += x.showVal(e) + ", "
 		}
 		return r + "}"
+	case *ArrayVal:
+		r := "["
+		for i, e := range c.E {
+			if i > 6 {
+				r += "..."
+				break
+			}
+			r += x.showVal(e) + ", "
+		}
+		return r + "]"
 	}
 	return fmt.Sprintf("%T", v)
 }
